@@ -2551,3 +2551,43 @@ Proof.
   - destruct o as [id cols|e]; [|discriminate]. intros H. destruct (prep_accept_sound _ _ H) as [m [A [B C]]].
     exists m. split; [assumption|]. split; [assumption|]. intros r2. now rewrite C.
 Qed.
+
+(* the re-preparation counterpart of [cell_follows_rows]: a PREPARED with the statement's id that
+   announces a metadata id, delivered to a call that is re-preparing (execute or batch): afterwards
+   the cell holds that id — unless the announcement has no columns while the cell has some (the
+   non-destructive rule), in which case the cell is untouched *)
+Lemma cell_follows_reprepare ST st c st' s pm i :
+  gstep ST st (GL_resp c (RPrepared (s_id (ST s)) pm)) = Some st' ->
+  (exists a, k_st (g_calls st c) = CS_prep a /\ xa_stmt a = s) \/ (exists b, k_st (g_calls st c) = CS_bprep b s) ->
+  m_id pm = Some i ->
+  (m_count (g_cells st s) = 0 \/ m_count pm <> 0 -> m_id (g_cells st' s) = Some i) /\
+  (m_count (g_cells st s) <> 0 -> m_count pm = 0 -> g_cells st' s = g_cells st s).
+Proof.
+  intros Hs Hst Hid. simpl in Hs.
+  assert (HR : exists cs oq, call_recv ST (k_ext (g_calls st c)) (g_cells st) (k_st (g_calls st c)) (RPrepared (s_id (ST s)) pm) =
+               Some (option_map (fun m' => (s, m')) (reprepare_update (g_cells st s) pm), cs, oq)).
+  { destruct Hst as [[a [-> <-]]|[b ->]]; simpl; rewrite bytes_eqb_refl; simpl; eauto. }
+  destruct HR as [cs [oq HR]]. rewrite HR in Hs. clear HR.
+  unfold reprepare_update in Hs. rewrite Hid in Hs.
+  destruct (m_count (g_cells st s) =? 0) eqn:E0; destruct (m_count pm =? 0) eqn:E1; simpl in Hs.
+  - (* both empty *)
+    split.
+    + intros _. destruct (negb (obytes_eqb (m_id (g_cells st s)) (Some i))) eqn:EU; simpl in Hs; inversion Hs; subst; simpl.
+      * rewrite upd_same. exact Hid.
+      * apply negb_false_iff in EU. now apply obytes_eqb_eq in EU.
+    + intros H. apply N.eqb_eq in E0. contradiction.
+  - split.
+    + intros _. destruct (negb (obytes_eqb (m_id (g_cells st s)) (Some i))) eqn:EU; simpl in Hs; inversion Hs; subst; simpl.
+      * rewrite upd_same. exact Hid.
+      * apply negb_false_iff in EU. now apply obytes_eqb_eq in EU.
+    + intros H. apply N.eqb_eq in E0. contradiction.
+  - (* destructive: ignored *)
+    inversion Hs; subst; simpl. split.
+    + intros [H|H]; [apply N.eqb_neq in E0; contradiction|apply N.eqb_eq in E1; contradiction].
+    + intros _ _. reflexivity.
+  - split.
+    + intros _. destruct (negb (obytes_eqb (m_id (g_cells st s)) (Some i))) eqn:EU; simpl in Hs; inversion Hs; subst; simpl.
+      * rewrite upd_same. exact Hid.
+      * apply negb_false_iff in EU. now apply obytes_eqb_eq in EU.
+    + intros _ H. apply N.eqb_neq in E1. contradiction.
+Qed.
